@@ -522,6 +522,9 @@ func c08Bubble(c c08Case) (res c08Result) {
 			p.mu.Unlock()
 			_, _ = p.c.Write(p.partial)
 			p.partial, p.pendingPartial = nil, nil
+		case "idle":
+			d, _ := time.ParseDuration(s.Kind)
+			time.Sleep(d)
 		case "garbage":
 			if p == nil || ended(p) {
 				continue
@@ -699,7 +702,10 @@ func drawC08(rt *rapid.T) c08Case {
 	}
 	for i := 0; i < nsteps; i++ {
 		s := c08Step{Conn: rapid.IntRange(0, nconn-1).Draw(rt, "conn")}
-		switch rapid.IntRange(0, 15).Draw(rt, "op") {
+		switch rapid.IntRange(0, 16).Draw(rt, "op") {
+		case 16:
+			// nothing happens for a while (fake time): connections age and idle
+			s.Op, s.Kind = "idle", rapid.SampledFrom([]string{"6s", "61s", "5m", "2h"}).Draw(rt, "idle")
 		case 0, 1, 2, 3, 4:
 			s.Op, s.Requests = "request", [][]string{drawOutcomes(rt)}
 		case 5, 6:
